@@ -288,17 +288,17 @@ def run(tier: str, only=None) -> core.Result:
         for combo in itertools.product(range(n), repeat=L):
             for mode in ("burst", "step"):
                 cfgs.append({"seq": list(combo), "mode": mode})
-    out = explorer.explore(RUN, cfgs)
+    out = explorer.explore(RUN, cfgs, fidelity=True)
     sched.absorb(res, f"sequences-len<={maxlen}", RUN, out, cfgs)
     depth = 2 if tier == "quick" else 3
     pay = _payloads(depth)
     cfgs2 = [{"payload": i, "shape": s, "depth": depth, "mode": "burst"} for i in range(len(pay))
              for s in ("typed", "dict", "str")]
-    out = explorer.explore(RUN, cfgs2)
+    out = explorer.explore(RUN, cfgs2, fidelity=True)
     sched.absorb(res, f"payload-json-depth{depth}", RUN, out, cfgs2)
     xcfgs = [{"size": sz, "count": c, "yields": y, "batch": b} for sz in (10, 70000) for c in (1, 2) for y in (0, 1, 2, 3)
              for b in ("none", "before", "between", "after")]
-    out = explorer.explore(RUN_X, xcfgs)
+    out = explorer.explore(RUN_X, xcfgs, fidelity=True)
     sched.absorb(res, "two-writers-on-stdin", RUN_X, out, xcfgs)
     res.coverage["exhaustive"] = True
     res.coverage["rule"] = (
